@@ -243,7 +243,7 @@ def leaf_syntenies(draw, leaves, max_fam=4, single_prob=0, allow_inconsistent=Tr
 @st.composite
 def rec_case(draw, max_obj=5, max_sp=4, min_obj=1, min_sp=1, costs="coherent", labelled=False,
              max_fam=4, prescribed_root=False, single_prob=0, obj_poly=0, sp_poly=0,
-             allow_inconsistent=True, maxcost=3, concentrate=False):
+             allow_inconsistent=True, maxcost=3, concentrate=False, prescribed_odds=(1, 5)):
     otree, stree, los = draw(trees_and_leaves(max_obj, max_sp, min_obj, min_sp, obj_poly, sp_poly, concentrate))
     case = {
         "object_tree": nested_to_newick(otree, "O"),
@@ -261,7 +261,7 @@ def rec_case(draw, max_obj=5, max_sp=4, min_obj=1, min_sp=1, costs="coherent", l
             leaf_syntenies(list(los), max_fam=max_fam, single_prob=single_prob,
                            allow_inconsistent=allow_inconsistent, tree=otree)
         )
-        if prescribed_root and consistent and len(los) > 1 and chance(draw, 1, 5):
+        if prescribed_root and consistent and len(los) > 1 and chance(draw, *prescribed_odds):
             present = {f for s in syn.values() for f in s}
             syn = dict(syn)
             syn["O0"] = [f for f in order if f in present]
@@ -318,7 +318,7 @@ def many_families_case(draw, min_fam=9, max_fam=11, max_obj=4, max_sp=2):
 
 
 @st.composite
-def deep_chain_case(draw, min_obj=6, max_obj=8, max_sp=3, max_fam=5, ordered=False, costs="coherent"):
+def deep_chain_case(draw, min_obj=6, max_obj=8, max_sp=3, max_fam=5, ordered=False, costs="coherent", maxcost=3):
     """A caterpillar object tree (one chain of min_obj-1 .. max_obj-1 nested ancestors) over few species with
     independently drawn leaf contents: the shape on which inheritance runs through several consecutive
     ancestors (content kept, gained or lost three and more levels below the node that holds it)."""
@@ -346,7 +346,7 @@ def deep_chain_case(draw, min_obj=6, max_obj=8, max_sp=3, max_fam=5, ordered=Fal
         "species_tree": nested_to_newick(stree, "S"),
         "leaf_object_species": los,
         "leaf_syntenies": syn,
-        "costs": draw(coherent_costs(labelled=True)) if costs == "coherent" else dict(DEFAULT),
+        "costs": draw(coherent_costs(labelled=True)) if costs == "coherent" else (draw(free_costs(maxv=maxcost)) if costs == "free" else dict(DEFAULT)),
     }
     return case
 
